@@ -30,6 +30,15 @@ func init() {
 		"verifAssert":        apiAssert,
 		"verifCover":         apiCover,
 		"verifTry":           apiTry,
+		"verifThorough": func(fr *frame, a []value) value {
+			// recorded in the replay vector so that the native run takes the same bounds
+			k := 0
+			if fr.i.sh.cfg.Thorough {
+				k = 1
+			}
+			fr.i.nondets = append(fr.i.nondets, NondetRec{Kind: "choice", Val: uint64(k)})
+			return k == 1
+		},
 		"verifShadow":        apiShadow,
 		"verifOutput":        func(fr *frame, a []value) value { return nil },
 		"verifOrderInsertion": func(fr *frame, a []value) value { fr.i.orderFree = false; return nil },
